@@ -2,9 +2,9 @@
 #include "props/reg_glue.hpp"
 using namespace rg;
 
-struct Case { TableD t; };
+struct Case { TableD t; bool reinit = false; };   // reinit: the table object carries the state a previous successful register_init() left behind
 static Case g_cur;
-static std::string ser_case(const Case &c) { return rm::ser(c.t); }
+static std::string ser_case(const Case &c) { return rm::ser(c.t) + (c.reinit ? "reinit 1\n" : ""); }
 
 static int rule_of(RegisterInitCode c) {
     switch (c) {
@@ -21,6 +21,12 @@ static std::string run_case(const Case &c, std::string &msg, size_t *nviol = nul
     std::vector<rm::Violation> viol = rm::violations(t);
     if (nviol) *nviol = viol.size();
     Live lv(t, 0x4d00);
+    if (c.reinit) {
+        // what a successful initialisation of this object (with an earlier, well-formed description) leaves behind
+        lv.t.flags |= REG_TF_INITIALISED;
+        lv.t.areas = (AreaHandle)t.areas.size(); lv.t.entries = (RegisterHandle)t.regs.size();
+        for (size_t i = 0; i < t.regs.size(); i++) { lv.entries[i].area = &lv.areas[0]; lv.entries[i].offset = 0; }
+    }
     RegisterInit in = lv.init();
     vp::count();
     if (viol.empty()) {
@@ -113,7 +119,7 @@ static void run() {
     vp::stats().rule = vp::fmt("stratified generation, %zu descriptions per shard: 1/2 valid tables perturbed by exactly one step (register moved/grown/swapped, area base/size changed or areas swapped, "
                                "default pushed across its bound / to a non-finite class / against its callback, skip-defaults or write callback toggled, no areas), 1/4 valid tables, 1/4 from the raw grid "
                                "(0-3 areas with bases {0x10,0x14,0x18,0x20} x sizes {1,2,4,8} in any order, 0-3 registers of any type anywhere in 0x0e..0x2b); oracle = rule set of the model with indices, "
-                               "post-conditions on storage, area runs and typed access, UNINITIALISED after failure", n);
+                               "post-conditions on storage, area runs and typed access, UNINITIALISED after failure; a third of the cases re-initialise a table object that carries the state of an earlier successful initialisation", n);
     vp::Rng rng(a.seed * 12289 + a.shard);
     for (size_t i = 0; i < n && !vp::too_many_failures(); i++) {
         Case c; const char *label = "valid";
@@ -121,6 +127,7 @@ static void run() {
         if (stratum < 2) { c.t = gen_table(rng); label = perturb(rng, c.t); }
         else if (stratum == 2) c.t = gen_table(rng);
         else { c.t = grid_table(rng); label = "grid"; }
+        c.reinit = rng.chance(1, 3);
         std::string msg; size_t nv = 0;
         std::string key = run_case(c, msg, &nv);
         if (!key.empty()) vp::fail(key, msg, ser_case(c));
@@ -132,6 +139,7 @@ static void run() {
 static bool replay(const std::string &text) {
     Case c; std::vector<std::string> rest;
     if (!rm::parse(text, c.t, rest)) return false;
+    for (auto &l : rest) if (l.rfind("reinit 1", 0) == 0) c.reinit = true;
     vp::CaseScope scope([] { return ser_case(g_cur); });
     std::string msg, key = run_case(c, msg);
     if (!key.empty()) printf("[replay] key=%s %s\n", key.c_str(), msg.c_str());
